@@ -2,13 +2,13 @@
 # trymutant.sh <patch.diff> <property>... : applies the patch to /repo, runs the quick checks, undoes it.
 P=$1; shift
 cd /repo || exit 2
-if ! git apply --check "$P" 2>/dev/null; then
-  if ! git apply --3way --check "$P" 2>/dev/null; then echo "PATCH DOES NOT APPLY: $P"; exit 3; fi
-fi
-git apply "$P" 2>/dev/null || git apply --3way "$P" || { echo "apply failed"; exit 3; }
-trap 'git -C /repo checkout -- . ; git -C /repo reset -q' EXIT
+if [ -n "$(git status --porcelain)" ]; then echo "REPO NOT CLEAN"; exit 2; fi
+if ! git apply --check "$P" 2>/dev/null; then echo "PATCH DOES NOT APPLY: $P"; exit 3; fi
+git apply "$P" || { echo "apply failed"; git checkout HEAD -- .; exit 3; }
+trap 'git -C /repo checkout HEAD -- . ; git -C /repo reset -q' EXIT
+TIER=${TIER:-quick}
 for prop in "$@"; do
-  out=$(cd /verif && ./check.sh $prop quick 2>&1)
+  out=$(cd /verif && ./check.sh $prop $TIER 2>&1)
   code=$?
   echo "== $prop exit=$code"
   echo "$out" | grep -E "^VIOLATION|^  [a-z-]+\[|^INTERNAL|^vcheck" | cut -c1-260 | head -8
